@@ -303,6 +303,23 @@ func (env *Env) ident(name string) Value {
 		if v, ok := env.fr.params[name]; ok {
 			return v
 		}
+		// a clause of the unit evaluated inside an inlined helper that has no contract (adopted loop clauses, before-
+		// assertions): names the helper does not have are the unit's own
+		if env.fr.spec == nil && env.fr.parent != nil {
+			saved := env.fr
+			for p := saved.parent; p != nil; p = p.parent {
+				env.fr = p
+				if v, ok := env.local(name); ok {
+					env.fr = saved
+					return v
+				}
+				if v, ok := p.params[name]; ok {
+					env.fr = saved
+					return v
+				}
+			}
+			env.fr = saved
+		}
 	}
 	// ghost variables
 	if g := env.ghostVar(name); g != nil {
